@@ -399,8 +399,8 @@ Print Assumptions C11_report_entry.
 
 (** logging an entry appends exactly one block to the report and leaves the earlier blocks alone *)
 Theorem C11_report_append : forall L h,
-  report_entries (set_hist L (lw_hist L ++ [h])) =
-  report_entries L ++ [(match fst h with Some l => if String.eqb l "" then None else Some l | None => None end,
-                        map round1c (snd h))].
+  report_entries (set_hist L (lw_hist L ++ [h])%list) =
+  (report_entries L ++ [(match fst h with Some l => if String.eqb l "" then None else Some l | None => None end,
+                         map round1c (snd h))])%list.
 Proof. exact report_entries_app. Qed.
 Print Assumptions C11_report_append.
